@@ -249,3 +249,66 @@ def system_of_scheme(scheme: str) -> str | None:
     if s == orc.MARLIN_SCHEME:
         return "marlin"
     return None
+
+
+# ------------------------------------------------------------------ process-wide state
+
+def canon_value(v, depth=0):
+    """order-free, address-free rendering of a module-level constant"""
+    import enum
+    if depth > 6:
+        return "…"
+    if isinstance(v, (set, frozenset)):
+        return "{" + ",".join(sorted(canon_value(x, depth + 1) for x in v)) + "}"
+    if isinstance(v, dict):
+        return "{" + ",".join(sorted(f"{canon_value(k, depth + 1)}:{canon_value(x, depth + 1)}" for k, x in v.items())) + "}"
+    if isinstance(v, (list, tuple)):
+        return "[" + ",".join(canon_value(x, depth + 1) for x in v) + "]"
+    if isinstance(v, enum.Enum):
+        return f"{type(v).__name__}.{v.name}"
+    if isinstance(v, (str, bytes, int, float, bool, type(None))):
+        return repr(v)
+    if callable(v):
+        return f"<callable {getattr(v, '__qualname__', type(v).__name__)}>"
+    if type(v).__name__ == "DashOption":
+        import dataclasses
+        if dataclasses.is_dataclass(v):
+            items = [(f.name, getattr(v, f.name, None)) for f in dataclasses.fields(v)]
+        elif hasattr(v, "__dict__"):
+            items = sorted(vars(v).items())
+        elif hasattr(v, "_asdict"):
+            items = sorted(v._asdict().items())
+        else:
+            items = [(k, getattr(v, k, None)) for k in getattr(type(v), "__slots__", ())]
+        return "DashOption(" + ",".join(f"{k}={canon_value(x, depth + 1)}" for k, x in items) + ")"
+    if type(v).__module__.startswith("dashlive.drm") and hasattr(v, "__dict__"):
+        # a DRM system object kept at module level: its attributes are shared by every request
+        return f"{type(v).__name__}(" + ",".join(f"{k}={canon_value(x, depth + 1)}" for k, x in sorted(vars(v).items())) + ")"
+    return f"<{type(v).__name__}>"
+
+
+CONST_MODULE_PREFIXES = ("dashlive.server.options", "dashlive.drm", "dashlive.server.requesthandler.drm_context")
+
+
+def snapshot_constants() -> dict[str, str]:
+    """every module-level constant (UPPER_CASE name, or a DashOption instance) of the option
+    layer and the DRM package: shared defaults that no request may change"""
+    import sys
+    out = {}
+    for name, mod in list(sys.modules.items()):
+        if mod is None or not name.startswith(CONST_MODULE_PREFIXES):
+            continue
+        for attr, val in list(vars(mod).items()):
+            if attr.startswith("_") or isinstance(val, type(sys)) or isinstance(val, type):
+                continue
+            if attr.isupper() or type(val).__name__ == "DashOption" or \
+                    (type(val).__module__.startswith("dashlive.drm") and hasattr(val, "__dict__")):
+                out[f"{name}.{attr}"] = canon_value(val)
+        for cname, cls in list(vars(mod).items()):
+            if isinstance(cls, type) and cls.__module__ == name:
+                for attr, val in list(vars(cls).items()):
+                    if attr.isupper() and not callable(val):
+                        out[f"{name}.{cname}.{attr}"] = canon_value(val)
+    return out
+
+
